@@ -103,7 +103,7 @@ func init() {
 func init() {
 	properties["C16"] = &Property{
 		Title: "accepted configurations never panic, hang or fail spuriously",
-		Rules: []string{"R-INIT-ORDER", "R-VERIFY-REQ", "R-PANIC", "R-ERRSET", "R-LOOPS-PARSER", "R-MARGIN", "R-HASHRANGE", "R-GSAP-REBUILD", "R-GSAP-COVERED"},
+		Rules: []string{"R-INIT-ORDER", "R-VERIFY-REQ", "R-PANIC", "R-ERRSET", "R-LOOPS-PARSER", "R-MARGIN", "R-HASHRANGE", "R-GSAP-REBUILD", "R-GSAP-COVERED", "R-LOAD8", "R-BUCKET-INDEX", "R-INIT-NOFAIL"},
 		Decided: "init order (SetDefaults, Verify, error returned, completed value stored); every downstream range requirement is implied by Verify; every reachable explicit panic is discharged; the error set of the parser API; termination templates for all parser-side loops of package lz; 7-byte margin.",
 		NotDecided: "implicit run-time panics (index out of range in the sorters, integer overflow), memory exhaustion, termination of ssort/trSort (package suffix loops are not matched to templates).",
 		Assumptions: []string{"an io.Reader does not return (0, nil) forever", "DivSufSort-internal panics (algorithm invariants) are not decided"},
@@ -143,7 +143,7 @@ func init() {
 func init() {
 	properties["C19"] = &Property{
 		Title: "matches are maximal; byte runs are compressed (structural clauses)",
-		Rules: []string{"R-OFFSET-AGREE", "R-EXT-COVER", "R-PREFIX-STOP", "R-BACKEXT", "R-REINDEX", "R-CAND-MEASURED", "R-STRIDE", "R-GSAP-BOTH"},
+		Rules: []string{"R-OFFSET-AGREE", "R-EXT-COVER", "R-PREFIX-STOP", "R-PREFIX-COVER", "R-BACKEXT", "R-REINDEX", "R-CAND-MEASURED", "R-STRIDE", "R-GSAP-BOTH"},
 		Decided: "for every non-optimizing parser: each comparison feeding MatchLen is between x and x−Offset and starts where the verified part ends; every path to an emission ends with a mismatch witness or at the block end (extension loops keep k + len(q) = len(p) − i, tail compared only with ≤ 7 bytes left); the backward extension covers min(pending literals, source position) bytes exactly when literals are pending; the scanned position and every position covered by a match are indexed; a table candidate with equal hash input inside the window is always measured.",
 		NotDecided: "the run clause as a count of literals per block (depends on hash values and table contents at run time); maximality as a fact about bytes rests on the trusted semantics of the word loaders and of lcp/lcs.",
 		Assumptions: []string{"_getLE64/getLE64 load the little-endian word at the start of their argument; lcp/lcs return exact common prefix/suffix lengths"},
@@ -153,7 +153,7 @@ func init() {
 func init() {
 	properties["C09"] = &Property{
 		Title: "suffix.Sort / LCP / InvertSA (narrow structural clauses)",
-		Rules: []string{"R-TEXT-RO", "R-LCP-INPUTS", "R-KASAI", "R-INVERT"},
+		Rules: []string{"R-TEXT-RO", "R-LCP-INPUTS", "R-KASAI", "R-INVERT", "R-SORT-SHORT", "R-PREFIX-STOP", "R-PREFIX-COVER"},
 		Decided: "package suffix never writes a byte slice (the text is not modified); LCP reaches its core only with consistent lengths and with a supplied or freshly computed sa / sainv of the same text; the LCP core has the shape of the Kasai/phi recurrence including lcp[0] = 0; InvertSA stores sainv[sa[j]] = j for all j.",
 		NotDecided: "that Sort produces the suffix array (B*-substring sort, tandem-repeat sort, induced sorting: ssort.go, trsort.go, k1.go) and its independence of the previous contents of sa — a value property of a 1,600-line in-place algorithm with sign-bit markers; no sound static argument is in reach and none is claimed. Defects inside the sorters (e.g. seeded C09-1, C09-2) are NOT detected by this check.",
 		Assumptions: []string{"matchLen returns the exact common prefix length of its arguments"},
